@@ -295,34 +295,50 @@ theorem ord_sameTexts : docGens ctrl docOrdOut [runNew] = docGens ctrl docOrd [r
 
 theorem ord_sameConfigs : SameConfigs docOrd docOrdOut := ⟨[utOld], [utNew], docTests_ord, docTests_ordOut, rfl⟩
 
-theorem ord_cfgBlankLed : CfgBlankLed docOrd := by decide
+/-! ## W5 (repaired by fix 15b47d2): white space in front of an inline configuration that is not a YAML blank is kept
 
-/-! ## W5: white space in front of an inline configuration that is not a YAML blank (U4 without `CfgBlankLed` is false)
+`update` used to write the configuration text with `trim_start()`, which drops Unicode `White_Space`; the YAML
+parser skips spaces and tabs only.  In `{<U+00A0>output_stream: stderr}` the key is `<U+00A0>output_stream`, an
+unknown field, which serde ignores: the test validates STDOUT.  `update` wrote `{output_stream: stderr}`: the test
+then validated STDERR, failed, and the next `update` rewrote its expectations
+(finding `C10:config-leading-white-space-changes-configuration`, confirmed on the binary, repaired by fix
+15b47d2: `trim_start_matches([' ', '\t'])`, `Update.blankStart`).  Now the no-break space stays. -/
 
-`update` writes the configuration text with `trim_start()`, which drops Unicode `White_Space`; the YAML parser
-skips spaces and tabs only.  In `{<U+00A0>output_stream: stderr}` the key is `<U+00A0>output_stream`, an unknown
-field, which serde ignores: the test validates STDOUT and passes.  `update` writes `{output_stream: stderr}`: the
-test now validates STDERR, fails, and the next `update` rewrites its expectations
-(finding `C10:config-leading-white-space-changes-configuration`, confirmed on the binary). -/
-
+/-- the configuration text `<U+00A0>output_stream: stderr` -/
+def cfgNbsp : List Char := ['\u00a0', 'o', 'u', 't', 'p', 'u', 't', '_', 's', 't', 'r', 'e', 'a', 'm', ':', ' ', 's', 't', 'd', 'e', 'r', 'r']
 /-- ```scrut {<U+00A0>output_stream: stderr} / $ x / a / ``` -/
 def docNbsp : List Char := ['`', '`', '`', 's', 'c', 'r', 'u', 't', ' ', '{', '\u00a0', 'o', 'u', 't', 'p', 'u', 't', '_', 's', 't', 'r', 'e', 'a', 'm', ':', ' ', 's', 't', 'd', 'e', 'r', 'r', '}', '\n', '$', ' ', 'x', '\n', 'a', '\n', '`', '`', '`', '\n']
-/-- what the first `update` writes: ```scrut {output_stream: stderr} / $ x / a / ``` -/
+/-- ```scrut {<U+00A0>output_stream: stderr} / $ x / b / ```: `docNbsp` updated on a run that prints `b` -/
+def docNbspB : List Char := ['`', '`', '`', 's', 'c', 'r', 'u', 't', ' ', '{', '\u00a0', 'o', 'u', 't', 'p', 'u', 't', '_', 's', 't', 'r', 'e', 'a', 'm', ':', ' ', 's', 't', 'd', 'e', 'r', 'r', '}', '\n', '$', ' ', 'x', '\n', 'b', '\n', '`', '`', '`', '\n']
+/-- a blank in front of the no-break space: ```scrut { <U+00A0>output_stream: stderr} / $ x / a / ``` -/
+def docSpNbsp : List Char := ['`', '`', '`', 's', 'c', 'r', 'u', 't', ' ', '{', ' ', '\u00a0', 'o', 'u', 't', 'p', 'u', 't', '_', 's', 't', 'r', 'e', 'a', 'm', ':', ' ', 's', 't', 'd', 'e', 'r', 'r', '}', '\n', '$', ' ', 'x', '\n', 'a', '\n', '`', '`', '`', '\n']
+/-- what `update` wrote for `docNbsp` UNTIL fix 15b47d2: ```scrut {output_stream: stderr} / $ x / a / ``` -/
 def docNbspOut : List Char := ['`', '`', '`', 's', 'c', 'r', 'u', 't', ' ', '{', 'o', 'u', 't', 'p', 'u', 't', '_', 's', 't', 'r', 'e', 'a', 'm', ':', ' ', 's', 't', 'd', 'e', 'r', 'r', '}', '\n', '$', ' ', 'x', '\n', 'a', '\n', '`', '`', '`', '\n']
-/-- what the second `update` writes: ```scrut {output_stream: stderr} / $ x / b / ``` -/
+/-- what the next `update` wrote then: ```scrut {output_stream: stderr} / $ x / b / ``` -/
 def docNbspOut2 : List Char := ['`', '`', '`', 's', 'c', 'r', 'u', 't', ' ', '{', 'o', 'u', 't', 'p', 'u', 't', '_', 's', 't', 'r', 'e', 'a', 'm', ':', ' ', 's', 't', 'd', 'e', 'r', 'r', '}', '\n', '$', ' ', 'x', '\n', 'b', '\n', '`', '`', '`', '\n']
 /-- the same block with an ordinary space behind the brace: ```scrut { output_stream: stderr} / $ x / a / ``` -/
 def docSp : List Char := ['`', '`', '`', 's', 'c', 'r', 'u', 't', ' ', '{', ' ', 'o', 'u', 't', 'p', 'u', 't', '_', 's', 't', 'r', 'e', 'a', 'm', ':', ' ', 's', 't', 'd', 'e', 'r', 'r', '}', '\n', '$', ' ', 'x', '\n', 'a', '\n', '`', '`', '`', '\n']
 def cfgErr : Yaml.Cfg := { outputStream := some .stderr, skipCode := some 80 }
 def utErr : UTest := ⟨⟨cfgErr, [⟨.equal [97], false, false⟩], none⟩, ['x'], [['a']]⟩
+def utB : UTest := ⟨⟨cfgMd, [⟨.equal [98], false, false⟩], none⟩, ['x'], [['b']]⟩
 /-- the command prints `a` to STDOUT, `b` to STDERR and ends in 0 -/
 def runAB : Ran := ⟨[97, 10], [98, 10], 0⟩
+/-- the command prints `b` to STDOUT, `a` to STDERR and ends in 0 -/
+def runBA : Ran := ⟨[98, 10], [97, 10], 0⟩
 
 /-- the configuration of the original is the default one: the key `<U+00A0>output_stream` is ignored -/
 theorem docTests_nbsp : docTests docNbsp = some [utA] := by rfl
+theorem docTests_nbspB : docTests docNbspB = some [utB] := by rfl
+theorem docTests_spNbsp : docTests docSpNbsp = some [utA] := by rfl
 theorem docTests_nbspOut : docTests docNbspOut = some [utErr] := by rfl
 theorem docTests_sp : docTests docSp = some [utErr] := by rfl
 theorem parse_sp : (parseMarkdown parseEnv docSp).toOption.isSome = true := by decide
+theorem parse_nbsp : (parseMarkdown parseEnv docNbsp).toOption.isSome = true := by decide
+
+/-- **the fence line written keeps the no-break space** (and drops the blank in front of it) -/
+theorem nbsp_suffix_kept :
+    Update.configSuffix [(0, cfgNbsp)] = ' ' :: '{' :: (cfgNbsp ++ ['}']) ∧
+    Update.configSuffix [(0, ' ' :: '\t' :: cfgNbsp)] = ' ' :: '{' :: (cfgNbsp ++ ['}']) := by decide
 
 theorem judge_AB : judge utA.test ([97, 10], [98, 10]) 0 = some .ok := by
   have : validateStream utA.test.cfg ([97, 10], [98, 10]) = [97, 10] := by decide
@@ -333,13 +349,91 @@ theorem judge_AB : judge utA.test ([97, 10], [98, 10]) 0 = some .ok := by
 theorem allPass_nbsp : AllPass docNbsp [runAB] :=
   allPass_one docNbsp utA runAB ([97, 10], [98, 10]) docTests_nbsp (by decide) judge_AB
 
-/-- the passing document is written: its configuration text loses the no-break space -/
-theorem nbsp_written (isOther : Char → Bool) :
-    updateDocument isOther docNbsp [runAB] = .updated docNbspOut [.ok] := by
+theorem allPass_spNbsp : AllPass docSpNbsp [runAB] :=
+  allPass_one docSpNbsp utA runAB ([97, 10], [98, 10]) docTests_spNbsp (by decide) judge_AB
+
+/-- the passing document is its own update: nothing is written (until fix 15b47d2: `.updated docNbspOut`) -/
+theorem nbsp_unchanged (isOther : Char → Bool) :
+    updateDocument isOther docNbsp [runAB] = .unchanged [.ok] := by
   rw [updateDocument_of_docTests _ _ _ _ docTests_nbsp,
     updateTests_one isOther docNbsp utA runAB ([97, 10], [98, 10]) .ok ['$', ' ', 'x', '\n', 'a', '\n']
       (by decide) (by decide) judge_AB (by rfl)]
   decide
+
+/-- with a blank in front: the passing document is written, the blank is dropped, the no-break space stays -/
+theorem spNbsp_written (isOther : Char → Bool) :
+    updateDocument isOther docSpNbsp [runAB] = .updated docNbsp [.ok] := by
+  rw [updateDocument_of_docTests _ _ _ _ docTests_spNbsp,
+    updateTests_one isOther docSpNbsp utA runAB ([97, 10], [98, 10]) .ok ['$', ' ', 'x', '\n', 'a', '\n']
+      (by decide) (by decide) judge_AB (by rfl)]
+  decide
+
+theorem diff_AB : diffOf utA.test.exps [98, 10] = some [.unmatched 0, .unexpected [0]] := by
+  have hm : matrix utA.test.exps (Newline.splitAtNewline [98, 10]) = some [[false]] := by decide
+  have hl : (Newline.splitAtNewline [98, 10]).length = 1 := by decide
+  unfold diffOf
+  simp only [hm, hl, Option.map_some]
+  simp [Diff.diff, Diff.loop, Diff.rangeFrom, Diff.unmatchedOf, Diff.findFrom, utA, quant, cell]
+
+theorem judge_BA : judge utA.test ([98, 10], [97, 10]) 0 = some (.malformed [.unmatched 0, .unexpected [0]]) := by
+  have : validateStream utA.test.cfg ([98, 10], [97, 10]) = [98, 10] := by decide
+  unfold judge
+  rw [this, diff_AB]
+  decide
+
+/-- on a run that prints `b` to STDOUT the document fails and is written: the fence line is the same, no-break
+space included, the expectation is `b` (STDOUT, as before) -/
+theorem nbsp_rewritten :
+    updateDocument ctrl docNbsp [runBA] = .updated docNbspB [.malformed [.unmatched 0, .unexpected [0]]] := by
+  rw [updateDocument_of_docTests _ _ _ _ docTests_nbsp,
+    updateTests_one ctrl docNbsp utA runBA ([98, 10], [97, 10]) (.malformed [.unmatched 0, .unexpected [0]])
+      ['$', ' ', 'x', '\n', 'b', '\n'] (by decide) (by decide) judge_BA (by decide)]
+  decide
+
+theorem diff_B : diffOf utB.test.exps [98, 10] = some [.matched 0 [0]] := by
+  have hm : matrix utB.test.exps (Newline.splitAtNewline [98, 10]) = some [[true]] := by decide
+  have hl : (Newline.splitAtNewline [98, 10]).length = 1 := by decide
+  unfold diffOf
+  simp only [hm, hl, Option.map_some]
+  simp [Diff.diff, Diff.loop, Diff.rangeFrom, Diff.unmatchedOf, utB, quant, cell]
+
+theorem judge_B : judge utB.test ([98, 10], [97, 10]) 0 = some .ok := by
+  have : validateStream utB.test.cfg ([98, 10], [97, 10]) = [98, 10] := by decide
+  unfold judge
+  rw [this, diff_B]
+  decide
+
+/-- … and the second update of it writes nothing -/
+theorem nbspB_unchanged (isOther : Char → Bool) :
+    updateDocument isOther docNbspB [runBA] = .unchanged [.ok] := by
+  rw [updateDocument_of_docTests _ _ _ _ docTests_nbspB,
+    updateTests_one isOther docNbspB utB runBA ([98, 10], [97, 10]) .ok ['$', ' ', 'x', '\n', 'b', '\n']
+      (by decide) (by decide) judge_B (by rfl)]
+  decide
+
+theorem nbsp_noStrayCR : NoStrayCR docNbsp := by decide
+theorem nbsp_codes : ∀ r ∈ [runBA], 0 ≤ r.code ∧ r.code ≤ 255 := by decide
+
+theorem nbsp_quantFree : QuantFree docNbsp [.malformed [.unmatched 0, .unexpected [0]]] := by
+  intro tests ht j u d hu _
+  rw [docTests_nbsp] at ht
+  cases ht
+  cases j with
+  | zero =>
+    simp at hu
+    subst hu
+    decide
+  | succ k => simp at hu
+
+/-! ### the record of the behaviour until fix 15b47d2 -/
+
+/-- `format!(" {{{}}}", config_text.trim_start())`: the configuration suffix as it was written until fix 15b47d2 -/
+def configSuffixOld (cfg : Markdown.Numbered) : List Char :=
+  let text := Markdown.joinNumbered cfg
+  if (trim text).isEmpty then [] else ' ' :: '{' :: (trimStart text ++ ['}'])
+
+/-- it dropped the no-break space, which is part of the first key -/
+theorem nbsp_suffix_old : configSuffixOld [(0, cfgNbsp)] = ' ' :: '{' :: (cfgNbsp.drop 1 ++ ['}']) := by decide
 
 theorem diff_err : diffOf utErr.test.exps [98, 10] = some [.unmatched 0, .unexpected [0]] := by
   have hm : matrix utErr.test.exps (Newline.splitAtNewline [98, 10]) = some [[false]] := by decide
@@ -354,7 +448,8 @@ theorem judge_err : judge utErr.test ([97, 10], [98, 10]) 0 = some (.malformed [
   rw [this, diff_err]
   decide
 
-/-- the written document is read with ANOTHER configuration, fails on the same run and is written again -/
+/-- the document written until fix 15b47d2 is read with ANOTHER configuration, fails on the same run and is
+written again -/
 theorem nbspOut_written :
     updateDocument ctrl docNbspOut [runAB] = .updated docNbspOut2 [.malformed [.unmatched 0, .unexpected [0]]] := by
   rw [updateDocument_of_docTests _ _ _ _ docTests_nbspOut,
@@ -362,17 +457,7 @@ theorem nbspOut_written :
       ['$', ' ', 'x', '\n', 'b', '\n'] (by decide) (by decide) judge_err (by decide)]
   decide
 
-theorem nbsp_not_cfgBlankLed : ¬ CfgBlankLed docNbsp := by decide
-theorem nbsp_noStrayCR : NoStrayCR docNbsp := by decide
-
-theorem nbsp_quantFree : QuantFree docNbsp [.ok] := by
-  intro tests _ j u d _ hr
-  cases j with
-  | zero => simp at hr
-  | succ k => simp at hr
-
-/-- the same document with an ordinary space: every guard of U4 holds, with a configuration whose leading blank
-`update` drops -/
+/-- the same document with an ordinary space: a configuration whose leading blank `update` drops -/
 theorem sp_written :
     updateDocument ctrl docSp [runAB] = .updated docNbspOut2 [.malformed [.unmatched 0, .unexpected [0]]] := by
   rw [updateDocument_of_docTests _ _ _ _ docTests_sp,
@@ -381,7 +466,6 @@ theorem sp_written :
   decide
 
 theorem sp_noStrayCR : NoStrayCR docSp := by decide
-theorem sp_cfgBlankLed : CfgBlankLed docSp := by decide
 theorem sp_codes : ∀ r ∈ [runAB], 0 ≤ r.code ∧ r.code ≤ 255 := by decide
 
 theorem sp_quantFree : QuantFree docSp [.malformed [.unmatched 0, .unexpected [0]]] := by
